@@ -149,6 +149,9 @@ def run(rep, tier, root=None):
             ar = find_atoms(xc, lambda a: isinstance(a, Fn) and a.name == "arange")
             rows_ok = len(cs) == 1 and len(cs[0].args[0]) == 2 and len(ar) == 1 and same_value(ar[0].args, (Rat.const(0), nx, Rat.const(1)))
         if not allocs and not (isinstance(xc, Rat) and find_atoms(xc, lambda a: isinstance(a, Fn) and a.name == "column_stack")):
+            allocs = [(a_[0], a_[1], a_[2]) for a_ in I.alloc_log if a_[0] == m.fq and a_[1].split(".")[-1] in ("full", "ones", "zeros", "empty")]
+            rows_ok = len(allocs) == 1 and bool(allocs[0][2]) and same_value(allocs[0][2][0], (nx, Rat.const(2)))
+        if not allocs and not (isinstance(xc, Rat) and find_atoms(xc, lambda a: isinstance(a, Fn) and a.name == "column_stack")):
             # neither an allocation nor a stack of columns: the construction of the table is not one the rule can read
             rep.unknown("K8.new-row-coordinates", "%s.set_X_coords: coordinate table has shape (nx_size, 2)" % tag,
                         "the table is neither allocated by zeros / empty nor stacked from columns: %s" % nf(xc, 160), m.where())
@@ -169,7 +172,7 @@ def run(rep, tier, root=None):
                   "%s.set_stencil_coords: stencil_positions = stencil_coords * pixel_scale" % tag,
                   "stencil_positions = %s: the covariances are computed for other points than the ones gathered from the screen" % nf(sp, 200),
                   m.where())
-        rep.check(ns is not None and sc is not None and same_value(ns, Rat.atom(Fn("len", (sc,)))), "K1.block-size",
+        rep.check(ns is not None and sc is not None and (same_value(ns, Rat.atom(Fn("len", (sc,)))) or same_value(ns, Rat.atom(Fn("shape", (sc, 0))))), "K1.block-size",
                   "%s.set_stencil_coords: n_stencils = len(stencil_coords)" % tag, "n_stencils = %s" % nf(ns, 120), m.where())
         if cname == "PhaseScreenVonKarman":
             want_st = Rat.atom(Fn("setitem", (Rat.const(0), ("slice", Rat.const(0), A("n_columns", "int"), None), Rat.const(1))))
